@@ -6,7 +6,9 @@ property leaves open.  Every check must stay silent on them.
   tools/legit.py import <property> <srcdir> <name>   keep a candidate (patch.diff, notes.md) as /verif/legit/<name>/
                                                      after confirming that it applies, builds and passes the
                                                      repository's own tests
-  tools/legit.py run [--part K/N] [name ...]         run ALL 16 quick checks against each kept change (scratch
+  tools/legit.py run [--part K/N] [--only Cxx,Cyy] [name ...]
+                                                     run ALL 16 quick checks (or only the listed ones, after a
+                                                     check was changed) against each kept change (scratch
                                                      worktree, never /repo) and record the outcome in meta.json
 """
 import json, os, shutil, subprocess, sys, time
@@ -63,6 +65,9 @@ def main():
         part = None
         if "--part" in a:
             i = a.index("--part"); part = tuple(int(x) for x in a[i + 1].split("/")); del a[i:i + 2]
+        only = None
+        if "--only" in a:
+            i = a.index("--only"); only = a[i + 1].split(","); del a[i:i + 2]
         names = [x for x in a[1:] if not x.startswith("--")] or sorted(n for n in os.listdir(LEGIT) if os.path.isdir(os.path.join(LEGIT, n)))
         for idx, name in enumerate(names):
             if part and idx % part[1] != part[0]:
@@ -75,8 +80,7 @@ def main():
                 if rc != 0:
                     print(name, "patch does not apply"); continue
                 env = dict(ENV, VERIF_REPO=wt, VERIF_OUTDIR=wt + ".out")
-                for i in range(1, 17):
-                    p = "C%02d" % i
+                for p in (only or ["C%02d" % i for i in range(1, 17)]):
                     t0 = time.time()
                     rc, out = sh([os.path.join(VERIF, "check"), p, "--tier", "quick"], cwd=VERIF, env=env, timeout=3600)
                     msg = ""
@@ -88,7 +92,8 @@ def main():
                 drop(wt)
             mp = os.path.join(d, "meta.json")
             meta = json.load(open(mp))
-            meta["checks_quick"] = res
+            meta.setdefault("checks_quick", {}).update(res)
+            res = meta["checks_quick"]
             meta["alarms"] = sorted(p for p, v in res.items() if v["exit"] == 1)
             meta["inconclusive"] = sorted(p for p, v in res.items() if v["exit"] not in (0, 1))
             json.dump(meta, open(mp, "w"), indent=1)
